@@ -4,6 +4,7 @@ package main
 // replays solver witnesses natively, writes evidence, prints verdict lines.
 
 import (
+	"sync/atomic"
 	"context"
 	"crypto/sha1"
 	"encoding/json"
@@ -439,7 +440,9 @@ func cmdCheck(args []string) {
 		"discharged_unsat":              totalUnsat,
 		"solver_queries":                totalQueries,
 		"solver_unknown":                totalUnknown,
-		"solver":                        *solver,
+		"solver":                        *solver + " (per-query timeout 6 s), fallback for unknown: one-shot cvc5 --solve-bv-as-int=sum",
+		"solver_fallback_queries":       atomic.LoadInt64(&fallbackTotal),
+		"solver_fallback_decided":       atomic.LoadInt64(&fallbackSolved),
 		"inconclusive":                  inconclusive,
 		"known_findings_reported":       knownLines,
 		"load_s":                        round2(loadS),
